@@ -421,6 +421,36 @@ def run(ctx):
                    "returns the configuration) every read of a flag (a name or config[...] slot that is assigned True/False/None in a "
                    "loop) is preceded, on every feasible path of one iteration of that loop or of a loop nested in it, by a store of "
                    "the same iteration: nothing decided for an earlier, rejected candidate (or output) leaks into the returned one", min_sites=16)
+    ctx.rule("G8", "search bounds derived from a frequency window round inwards: a bound computed as ceil/floor of a quotient that has "
+                   "<x>_range[1] in the denominator or <x>_range[0] in the numerator is a lower bound and uses ceil; [0] in the "
+                   "denominator or [1] in the numerator is an upper bound and uses floor", min_sites=6)
+    for rel in ("intel_common.py", "efinix.py"):
+        m8 = ctx.mod(D + rel)
+        for cname8, c8 in m8.classes.items():
+            for fn8 in [x for x in c8.body if isinstance(x, ast.FunctionDef)]:
+                for n in ast.walk(fn8):
+                    if not (isinstance(n, ast.Call) and norm(n.func) in ("math.ceil", "math.floor", "ceil", "floor") and len(n.args) == 1 and
+                            isinstance(n.args[0], ast.BinOp) and isinstance(n.args[0].op, ast.Div)):
+                        continue
+
+                    def idx(e):
+                        out = set()
+                        for x in ast.walk(e):
+                            if isinstance(x, ast.Subscript) and isinstance(x.slice, ast.Constant) and x.slice.value in (0, 1) and \
+                                    norm(x.value).endswith("range"):
+                                out.add(x.slice.value)
+                        return out
+                    num, den = idx(n.args[0].left), idx(n.args[0].right)
+                    lower = (1 in den) or (0 in num)
+                    upper = (0 in den) or (1 in num)
+                    if lower == upper:
+                        continue          # no window element, or both: not a one-sided bound
+                    is_ceil = norm(n.func).endswith("ceil")
+                    ok = is_ceil == lower
+                    ctx.ob("G8", D + rel, f"{cname8}.{fn8.name}", f"{'lower' if lower else 'upper'} bound {norm(n)[:60]} rounds inwards", ok,
+                           "" if ok else f"`{norm(n)}` is a{'n upper' if upper else ' lower'} bound of the search (window element "
+                                         f"{'[0] in the denominator / [1] in the numerator' if upper else '[1] in the denominator / [0] in the numerator'}) "
+                                         f"but rounds {'up' if is_ceil else 'down'}: the first value outside the window is searched and can be returned", n)
     ctx.rule("G7", "no None / 0 confusion: a name or config[...] slot that holds None for 'nothing chosen' and otherwise an index or "
                    "number (assigned a non-boolean value) is tested with `is None` / `is not None`, never by truthiness -- index 0 / "
                    "value 0 is a legal choice", min_sites=2)
